@@ -54,19 +54,11 @@ Fixpoint inner_node_fuel {T} (fuel : nat) (f : T -> T -> T) (empty : T) (l : lis
 Definition inner_node {T} (f : T -> T -> T) (empty : T) (l : list T) (off len : N) : option T :=
   inner_node_fuel (S (length l)) f empty l off len.
 
-(* the consecutive blocks of [len] leaves of [l] (length l a multiple of len), each
-   replaced by its root: the nodes of one level of the tree *)
-Fixpoint level_nodes_fuel {T} (fuel : nat) (f : T -> T -> T) (empty : T) (l : list T) (len : N) : list T :=
-  match fuel with
-  | O => []
-  | S fu =>
-    match l with
-    | [] => []
-    | _ => mroot f empty (takeN len l) :: level_nodes_fuel fu f empty (dropN len l) len
-    end
-  end.
+(* the nodes of one level of the tree: the consecutive blocks of [len] leaves of [l]
+   (length l a multiple of len), each replaced by its root *)
 Definition level_nodes {T} (f : T -> T -> T) (empty : T) (l : list T) (len : N) : list T :=
-  level_nodes_fuel (length l) f empty l len.
+  map (fun p => mroot f empty (takeN len (dropN (N.of_nat p * len) l)))
+      (seq 0 (N.to_nat (lenN l / len))).
 
 (* ---------- NmtHasher ---------- *)
 
